@@ -400,7 +400,9 @@ def run_harness(h, ovl, tdir, logdir, playback=False, cap_mult=1.0):
             r.update({"id": h.id, "rc": -1, "timed_out": False, "wall_s": 0.0, "log": log, "setup_problem": problem})
             return r, ""
         h.unwindset_resolved = resolved
-    rc, timed_out, wall = run_cmd(kani_cmd(h, tdir, playback), ovl, log, h.cap * cap_mult, h.mem_gb)
+    # the concrete-playback run keeps the whole trace and needs more memory than the deciding run
+    mem = max(h.mem_gb, 40) if playback else h.mem_gb
+    rc, timed_out, wall = run_cmd(kani_cmd(h, tdir, playback), ovl, log, h.cap * cap_mult, mem)
     text = open(log, errors="replace").read()
     r = parse_log(text)
     r.update({"id": h.id, "rc": rc, "timed_out": timed_out, "wall_s": round(wall, 2), "log": log})
@@ -524,7 +526,13 @@ def cli_observe(ovl, jsonnet_src, logdir, tag):
 def do_replay_for_failure(h, prop, ovl, tdir, logdir, r):
     """Re-run with concrete playback, run the counterexample natively; returns (replay_path, reproduced, info)."""
     pr, ptext = run_harness(h, ovl, tdir, logdir, playback=True, cap_mult=4.0)
-    tests = [t for t in extract_playback_tests(ptext) if t["check_kind"] != "cover" and t["test_name"]]
+    all_tests = [t for t in extract_playback_tests(ptext) if t["test_name"]]
+    tests = [t for t in all_tests if t["check_kind"] != "cover"]
+    if not tests:
+        # Kani prints one unit test per DISTINCT vector of concrete values; when the failing path reads no symbolic value
+        # (or the same values as a cover witness) only the cover's test is printed. Running the harness natively on those
+        # values is the replay all the same: the native test fails iff the harness's assertion fails on them.
+        tests = all_tests
     info = {"property": prop, "harness": h.id, "harness_file": h.relfile, "crate": h.crate, "modpath": h.modpath,
             "failed_checks": r["failed"], "desc": h.desc, "bound": h.bound, "tests": [], "created": time.strftime("%Y-%m-%dT%H:%M:%S")}
     reproduced = False
